@@ -6,6 +6,39 @@ C16 (gauge life cycle)."""
 from vlib import *
 
 
+def _validate(ctx, module, tr, endmark, name=None):
+    s = ctx.tlc(module, module + ".cfg", name=name or module, trace_mode=True, env={"TRACE": tr}, timeout=900, coverage=False)
+    um = None
+    with open(s["out"], errors="replace") as f:
+        for line in f:
+            m = re.match(r'^<<"UNMATCHED", (\d+), "(.*)">>$', line.rstrip("\n"))
+            if m:
+                um = (int(m.group(1)), m.group(2).replace('\\"', '"'))
+    if um is not None or s["error"]:
+        lines = open(tr).read().splitlines()
+        k = (um[0] - 1) if um else max(0, (s["depth"] or 2) - 2)
+        start = max([i for i in range(0, k + 1) if endmark in lines[i] or '"ev":"Config"' in lines[i]] or [0])
+        ev = json.loads(lines[k]).get("ev", "?") if k < len(lines) else "?"
+        prev = json.loads(lines[k - 1]).get("ev", "?") if k > 0 else "-"
+        conc = ":concurrent" if module == "EndpointNTrace" else ""
+        what = ("no behaviour of %s explains this event" % module[:-5]) if um else "an invariant of %s.tla is false on the recorded execution: %s" % (module[:-5], s["error"])
+        ctx.violations.append({"sig": ("endpoint%s:reject:%s:after:%s" % (conc, ev, prev)) if um else "endpoint%s:invariant" % conc,
+                               "what": "%s: %s" % (what, lines[k] if k < len(lines) else ""),
+                               "detail": {"kind": "trace", "module": module, "connection": lines[start:k + 3][-40:]}, "job": module})
+
+
+def run_listener_subsets(ctx):
+    """C05 'the listener enables', over the subsets of TCP protocols: a real Core::listen that enables HTTP/1.1 only / HTTP/2 only is
+    visited by clients offering one protocol; the client's view and the hook trace (EndpointTrace: the protocol served is enabled)"""
+    ctx.build("ep")
+    trace = os.path.join(ctx.work, "endpoint_subsets.ndjson")
+    r = ctx.harness("ep", ["--configs", "subsets", "--trace", trace], name="ep.subsets", env={"VERIF_ROOT": ROOT}, timeout=600)
+    if r["counters"].get("events", 0) < 20:
+        raise ToolError("listener-subset job recorded too few events")
+    _validate(ctx, "EndpointTrace", trace, '"ev":"Accepted"', name="EndpointTrace.subsets")
+    return r["evaluations"]
+
+
 def run_endpoint(ctx):
     ctx.build("ep")
     mc = ctx.tlc("MCEndpoint", "MCEndpoint.cfg", workers=2, timeout=300,
@@ -21,29 +54,12 @@ def run_endpoint(ctx):
         ctx.spec_must_hold(mcn3)
     trace = os.path.join(ctx.work, "endpoint.ndjson")
     trace_n = os.path.join(ctx.work, "endpoint_n.ndjson")
-    r = ctx.harness("ep", ["--rounds", "4" if ctx.thorough else "2", "--trace", trace, "--trace-n", trace_n,
+    r = ctx.harness("ep", ["--configs", "full", "--rounds", "4" if ctx.thorough else "2", "--trace", trace, "--trace-n", trace_n,
                            "--waves", "16" if ctx.thorough else "5", "--width", "6" if ctx.thorough else "4"], env={"VERIF_ROOT": ROOT}, timeout=1200)
     if r["counters"].get("events", 0) < 100:
         raise ToolError("endpoint job recorded too few events")
     for module, tr, endmark in (("EndpointTrace", trace, '"ev":"Accepted"'), ("EndpointNTrace", trace_n, '"ev":"WaveEnd"')):
-        s = ctx.tlc(module, module + ".cfg", name=module, trace_mode=True, env={"TRACE": tr}, timeout=900, coverage=False)
-        um = None
-        with open(s["out"], errors="replace") as f:
-            for line in f:
-                m = re.match(r'^<<"UNMATCHED", (\d+), "(.*)">>$', line.rstrip("\n"))
-                if m:
-                    um = (int(m.group(1)), m.group(2).replace('\\"', '"'))
-        if um is not None or s["error"]:
-            lines = open(tr).read().splitlines()
-            k = (um[0] - 1) if um else max(0, (s["depth"] or 2) - 2)
-            start = max([i for i in range(0, k + 1) if endmark in lines[i] or '"ev":"Config"' in lines[i]] or [0])
-            ev = json.loads(lines[k]).get("ev", "?") if k < len(lines) else "?"
-            prev = json.loads(lines[k - 1]).get("ev", "?") if k > 0 else "-"
-            conc = ":concurrent" if module == "EndpointNTrace" else ""
-            what = ("no behaviour of %s explains this event" % module[:-5]) if um else "an invariant of %s.tla is false on the recorded execution: %s" % (module[:-5], s["error"])
-            ctx.violations.append({"sig": ("endpoint%s:reject:%s:after:%s" % (conc, ev, prev)) if um else "endpoint%s:invariant" % conc,
-                                   "what": "%s: %s" % (what, lines[k] if k < len(lines) else ""),
-                                   "detail": {"kind": "trace", "module": module, "connection": lines[start:k + 3][-40:]}, "job": module})
+        _validate(ctx, module, tr, endmark)
     # the same composition over QUIC (EndpointQuic.tla): rules after the handshake with the handshake's random
     import h3_jobs
     quic = h3_jobs.h3_endpoint_job(ctx)
